@@ -66,6 +66,13 @@ contract('Node.value_iteration_reach', virtual=True, implementations=['Probabili
          ensures=[f"result == BR(cls(self), {NS_}, state_list, RP)"], modifies={},
          props=['C01', 'C02', 'C04', 'C06', 'C13', 'C14'])
 
+# Node.__eq__ (used by the repository's tests only): field-wise comparison, the transition lists by content; no side effect
+contract('Node.__eq__', params={'self': NODE, 'other': NODE}, result=BOOL, requires=[], modifies={},
+         ensures=["result == (self.player == other.player and self.idx == other.idx and self.reward == other.reward and "
+                  "len(self.next_states) == len(other.next_states) and forall(k, 0, len(self.next_states), self.next_states[k] == other.next_states[k]) "
+                  "and self.is_final_node == other.is_final_node)"],
+         props=['C10'])
+
 # ------------------------------------------------------------------ strategy lists (C04, C05)
 RP01 = "forall(t, 0, len(state_list), 0 <= RP[state_list[t]] and RP[state_list[t]] <= 1)"
 contract('PlayerOne.get_best_strategies_reachability',
@@ -714,12 +721,39 @@ contract('Solver.solve_reachability', heap=SOLVER_HEAP, opaque=('BR', 'MaxS', 'M
          props=['C01', 'C04', 'C06', 'C13'])
 
 # ------------------------------------------------------------------ the phases composed: Solver.__init__, prune_stochastich_game, solve_total_rewards, solve (typed suffix)
-contract('Solver.__init__', constructor=True, external=True, heap=SOLVER_HEAP,
+from z3 import ToInt, RealVal  # noqa
+LOGB = Function('LOGB', RealSort(), RealSort(), RealSort())
+
+
+def ext_log_base(s, st, e):  # noqa
+    """math.log(x, base): defined for x > 0 and a base > 0 other than 1. ASSUMED about the float it returns, and only at the one
+    point the solver uses: for x = the double 10**(-6) (exactly, as a rational) and base 10, CPython's result lies in [-6, -5)
+    (it is -5.999999999999999 = log(x)/log(10) in doubles; the real logarithm of that double is a hair BELOW -6, so this is a
+    statement about the library function, not about the real logarithm). The static obligation `solver-constants` evaluates the
+    real source expression under CPython on every run."""
+    if len(e.args) != 2 or e.keywords:
+        raise Unsupported('math.log form (two positional arguments expected)')
+    x, t = s.ev(e.args[0], st)
+    b, tb = s.ev(e.args[1], st)
+    x = s.coerce(x, t, REAL)[0]
+    b = s.coerce(b, tb, REAL)[0]
+    s.safe(st, 'log-domain', And(x > 0, b > 0, b != 1), e.lineno)
+    from fractions import Fraction
+    st.pc.append(Implies(And(x == RealVal(str(Fraction(10.0 ** -6))), b == 10), And(LOGB(x, b) >= -6, LOGB(x, b) < -5)))
+    return LOGB(x, b), REAL
+
+
+def ext_floor_(s, st, e):          # math.floor(x): the largest integer <= x
+    x, t = s.ev(e.args[0], st)
+    return ToInt(s.coerce(x, t, REAL)[0]), INT
+
+
+contract('Solver.__init__', constructor=True, heap=SOLVER_HEAP, externals={'math.log': ext_log_base, 'math.floor': ext_floor_},
          params={'self': REF('Solver'), 'state_list': SLT, 'threshold': REAL}, defaults={'threshold': '10**(-6)'},
          requires=["threshold == 10**(-6)"], modifies={'state_list': ['self'], 'threshold': ['self'], 'floor': ['self']},
-         # assumed (math.log / math.floor are outside the solver theories); the floor value is re-computed from the real source by the
-         # static obligation solver-constants on every run
-         ensures=["self.state_list == state_list", "self.threshold == threshold", "self.floor == 6"], list_eq_structural=True, props=[])
+         # verified from the real body; the only assumption is the bracket of math.log(10**-6, 10) in ext_log_base
+         ensures=["self.state_list == state_list", "self.threshold == threshold", "self.floor == 6"], list_eq_structural=True,
+         props=['C01', 'C02', 'C04', 'C06', 'C10', 'C14'])
 
 
 def alive_edge(p, a):
